@@ -122,17 +122,17 @@ func (l *localExecutor) depReaders(ctx context.Context, task *Task) (in []slicei
 			}
 			combiner, err := newCombiner(dep.Task(0), combineKey.String(), dep.Task(0).Combiner, *defaultChunksize*100)
 			if err != nil {
-				return nil, errors.E(errors.Fatal, "could not make combiner for %v", dep.Task(0).String(), err)
+				return nil, errors.E(errors.Fatal, "could not make combiner for %v", dep.Task(0).Name.String(), err)
 			}
 			buf := frame.Make(dep.Task(0), *defaultChunksize, *defaultChunksize)
 			for {
 				var n int
 				n, err = reader.Read(ctx, buf)
 				if err != nil && err != sliceio.EOF {
-					return nil, errors.E("error reading %v", dep.Task(0).String(), err)
+					return nil, errors.E("error reading %v", dep.Task(0).Name.String(), err)
 				}
 				if combineErr := combiner.Combine(ctx, buf.Slice(0, n)); combineErr != nil {
-					return nil, errors.E(errors.Fatal, "failed to combine %v", dep.Task(0).String(), combineErr)
+					return nil, errors.E(errors.Fatal, "failed to combine %v", dep.Task(0).Name.String(), combineErr)
 				}
 				if err == sliceio.EOF {
 					break
@@ -140,7 +140,7 @@ func (l *localExecutor) depReaders(ctx context.Context, task *Task) (in []slicei
 			}
 			reader, err := combiner.Reader()
 			if err != nil {
-				return nil, errors.E(errors.Fatal, "failed to start reading combiner for %v", dep.Task(0).String(), err)
+				return nil, errors.E(errors.Fatal, "failed to start reading combiner for %v", dep.Task(0).Name.String(), err)
 			}
 			in = append(in, reader)
 		} else if dep.Expand {
